@@ -142,7 +142,23 @@ Inductive trace :=
 | TDestroyed (leaked : nat)
 | TNone.
 
+(* the code as it is now / as it was at the pinned commit *)
+Record cfg := {
+  cf_reset_ep : bool;       (* scanner->entry_point = YR_UNDEFINED at the start of every new scan (c92ef8f) *)
+  cf_unload_any : bool      (* yr_modules_unload_all removes whatever object carries a module's name (before 9d2571f) *)
+}.
+Definition cfg_current : cfg := {| cf_reset_ep := true; cf_unload_any := false |}.
+Definition cfg_pinned : cfg := {| cf_reset_ep := false; cf_unload_any := true |}.
+
+Definition with_ep (s : sstate) (ep : option N) : sstate := {|
+  st_alive := st_alive s; st_ep := ep; st_fsize := st_fsize s; st_flags := st_flags s; st_timeout := st_timeout s;
+  st_objs := st_objs s; st_mods := st_mods s; st_rule_flags := st_rule_flags s; st_ns_unsat := st_ns_unsat s;
+  st_disabled := st_disabled s; st_matches := st_matches s; st_unconfirmed := st_unconfirmed s;
+  st_required := st_required s; st_notebook := st_notebook s; st_last_error := st_last_error s;
+  st_pool := st_pool s; st_susp := st_susp s; st_leaked := st_leaked s |}.
+
 Section WithOracle.
+Variable cf : cfg.
 
 (* the identifiers of yr_modules_table: yr_modules_unload_all removes each of them from objects_table *)
 Variable modnames : list ident.
@@ -178,7 +194,7 @@ Definition finish (s : sstate) (i : input) (sc : script) (res : residue) (leaked
   let le := match stop with Some (KTooMany, _) => Some (in_id i) | _ => st_last_error s end in
   (cleaned s ep
      (if exec then in_fsize i else st_fsize s)                                  (* scanner.c 573-576 *)
-     (if exec then remove_keys modnames (st_objs s) else st_objs s)             (* yr_modules_unload_all *)
+     (if exec && cf_unload_any cf then remove_keys modnames (st_objs s) else st_objs s)   (* yr_modules_unload_all *)
      le (Nat.max (st_pool s) (n_pool nat)) leaked,
    TScan ms rc).
 
@@ -192,17 +208,19 @@ Definition step (s : sstate) (o : op) : sstate * trace :=
          nothing else is reset *)
       let leaked := st_leaked s in
       let res := match st_notebook s with Some _ => no_residue | None => residue_of s end in
-      let ep := match st_ep s with Some e => Some e | None => in_ep (st_flags s) i end in
+      (* the entry point found by an earlier scan is forgotten (scanner.c 536, since fix c92ef8f) *)
+      let s0 := if cf_reset_ep cf then with_ep s None else s in
+      let ep := match st_ep s0 with Some e => Some e | None => in_ep (st_flags s) i end in
       let nat := oracle (st_flags s) (st_timeout s) i (st_objs s) ep res in
       match nr with
       | Some j =>
           (* an error of the block-scanning phase (time-out) comes first; otherwise the scan waits *)
           if n_exec nat then
             if Nat.ltb 0 j && Nat.leb j (in_nblocks i)
-            then (waiting s ep i sc j leaked res, TScan [] ERROR_BLOCK_NOT_READY)
+            then (waiting s0 ep i sc j leaked res, TScan [] ERROR_BLOCK_NOT_READY)
             else (s, TNone)
-          else finish s i sc res leaked
-      | None => finish s i sc res leaked
+          else finish s0 i sc res leaked
+      | None => finish s0 i sc res leaked
       end
   | Resume nr =>
       match st_susp s with
@@ -275,28 +293,8 @@ Fixpoint run (s : sstate) (h : list op) : sstate * list trace :=
 Definition is_setting (o : op) : bool :=
   match o with SetFlags _ | SetTimeout _ | PokeTimeout _ | Define _ _ => true | _ => false end.
 
-(* the histories the theorems speak about, decided by running the model: no define that crashes
-   (NULL string handed to yr_scanner_define_string_variable) *)
-Fixpoint hist_ok (s : sstate) (h : list op) : bool :=
-  match h with
-  | [] => true
-  | o :: t =>
-      let ok := match o with
-                | Define x d => match snd (scanner_define (st_objs s) x d) with RCrash => false | _ => true end
-                | _ => true
-                end in
-      if ok then hist_ok (fst (step s o)) t else false
-  end.
-
 (* no external variable carries the name of a module *)
 Definition no_module_names (o : objs) : bool := forallb (fun kv => negb (mem (fst kv) modnames)) o.
-
-Definition with_ep (s : sstate) (ep : option N) : sstate := {|
-  st_alive := st_alive s; st_ep := ep; st_fsize := st_fsize s; st_flags := st_flags s; st_timeout := st_timeout s;
-  st_objs := st_objs s; st_mods := st_mods s; st_rule_flags := st_rule_flags s; st_ns_unsat := st_ns_unsat s;
-  st_disabled := st_disabled s; st_matches := st_matches s; st_unconfirmed := st_unconfirmed s;
-  st_required := st_required s; st_notebook := st_notebook s; st_last_error := st_last_error s;
-  st_pool := st_pool s; st_susp := st_susp s; st_leaked := st_leaked s |}.
 
 (* heap blocks the scanner owns or has lost: struct + objects_table + six arrays, one per object,
    the pools, a notebook, and what leaked *)
